@@ -254,10 +254,15 @@ def match_known(known, run, k):
     return None
 
 
+CURRENT_REPORT = None
+
+
 class Report:
     """Collects violations / known findings for one check invocation."""
 
     def __init__(self, prop, seed, tier):
+        global CURRENT_REPORT
+        CURRENT_REPORT = self
         self.prop, self.seed, self.tier = prop, seed, tier
         self.known = load_known(prop)
         self.violations = []
@@ -290,6 +295,13 @@ class Report:
         else:
             path = self.violations[-1][1]
         self.violations.append((what, path))
+
+    def finish_after_tool_error(self, err):
+        """A tool error (e.g. a canary that needs a clean prefix) after TLC has already rejected real events must not
+        hide them: report the violations found so far (exit 1); the evidence says that the run is incomplete."""
+        return self.finish("other", {"explanation": "run aborted by a tool error AFTER violations had been found: %s" % str(err)[:500],
+                                     "evaluations": max(self.events, 1), "distinct_nontrivial": 0, "samples": []},
+                           ["incomplete run: " + str(err)[:300]])
 
     def finish(self, level, coverage, assumptions):
         for what, n in self.known_hits.items():
@@ -348,6 +360,9 @@ def validate_traces(rep, module, files, cfg=None, parallel=8, timeout=1800, dequ
 
 def canary(rep, module, src_file, mutate, n=60, cfg=None, deque=False, stateful=False):
     """Binding demonstration: corrupt one recorded output field; the trace spec must reject it."""
+    if rep.violations:
+        rep.notes.append("canary skipped: this run already found violations (the canary needs an accepted prefix)")
+        return False
     lines = read_lines(src_file)
     if stateful:
         # take whole cases up to ~n events
